@@ -319,11 +319,11 @@ var (
 )
 
 func c05ParsePoint(s string) (base.StagePoint, bool) {
-	// the worlds only use heights 32..42, rounds 0..2: find the stage point whose String() is s
+	// the worlds only use heights 32..64, rounds 0..2: find the stage point whose String() is s
 	c05PointsOnce.Do(func() {
 		c05Points = map[string]base.StagePoint{}
 
-		for h := int64(32); h <= 42; h++ {
+		for h := int64(32); h <= 64; h++ {
 			for r := uint64(0); r <= 2; r++ {
 				for _, st := range []base.Stage{base.StageINIT, base.StageACCEPT} {
 					sp := base.NewStagePoint(base.RawPoint(h, r), st)
@@ -1002,6 +1002,370 @@ func c05AdvanceMachine(rt *rapid.T, r *ev.Rec, st *c05State) (w *bbWorld, counte
 	return w, counted, firedWhileCompleting, classes
 }
 
+// ---- fourth generator: the FIRST ballots of a stage point that has no record yet arrive at the same moment from several nodes
+//
+// launch hands every ballot that comes in over the network to Ballotbox.Vote from the goroutine of its own network handler: the
+// first ballots of a new stage point (ordinary and suffrage-confirm) of several nodes are inside Vote together. The oracle does
+// not depend on which schedule happens: whatever the interleaving, a vote that Vote() accepted is recorded for its stage point.
+
+const c05FirstBase = 33
+
+type c05FirstVote struct {
+	d     bbBallotDesc
+	bl    base.Ballot
+	key   bbKey
+	voted bool
+	err   error
+}
+
+// c05Offer registers a ballot as handed to Vote (what bbWorld.vote does before it votes), from the test goroutine.
+func c05Offer(w *bbWorld, bl base.Ballot) bbKey {
+	sf := bl.SignFact()
+	k := bbKey{Point: bl.Point().String(), SC: bbIsSC(sf.Fact())}
+
+	w.mu.Lock()
+	defer w.mu.Unlock()
+
+	if w.offered[k] == nil {
+		w.offered[k] = map[string]base.BallotSignFact{}
+	}
+
+	w.offered[k][bbSFKey(sf)] = sf
+	w.points[bl.Point().String()] = true
+
+	if vp := bl.Voteproof(); vp != nil {
+		w.embedded[vp.ID()] = vp
+	}
+
+	return k
+}
+
+func c05FirstBallotsMachine(rt *rapid.T, r *ev.Rec, st *c05State, heights int) (w *bbWorld, rounds, fullRounds, scRounds int, classes []string) {
+	n := rapid.IntRange(4, 8).Draw(rt, "n")
+	th := base.Threshold(rapid.SampledFrom([]float64{100, 100, 67, 80}).Draw(rt, "threshold"))
+	localIdx := rapid.SampledFrom([]int{0, 0, n}).Draw(rt, "localIdx")
+
+	w = newBBWorld(n, th, localIdx)
+	w.kinds = bbKindsC05
+
+	st.attach(w)
+	defer st.detach()
+
+	hist := func() string { return strings.Join(w.history, "\n    ") }
+
+	all := make([]base.Address, 0, n+1)
+	for _, l := range w.locals {
+		all = append(all, l.Address())
+	}
+
+	majorities := map[string]bool{} // key|fact -> a majority voteproof was handed out
+
+	judge := func() {
+		for _, vp := range w.drain() {
+			w.emitted = append(w.emitted, vp)
+			bbCheckEmitted(rt, r, w, vp)
+
+			if vp.Result() == base.VoteResultMajority && vp.Majority() != nil {
+				majorities[fmt.Sprintf("%s|%v|%s", vp.Point(), bbIsSC(vp.Majority()), vp.Majority().Hash())] = true
+			}
+		}
+	}
+
+	// one round: the ballots of vs go into Vote together
+	round := func(label string, vs []c05FirstVote) bool {
+		for i := range vs {
+			bl, ok := w.cachedBallot(vs[i].d)
+			if !ok {
+				rt.Fatalf("harness precondition: ballot %v is not valid", vs[i].d)
+			}
+
+			vs[i].bl, vs[i].key = bl, c05Offer(w, bl)
+		}
+
+		ds := make([]string, len(vs))
+		for i := range vs {
+			ds[i] = vs[i].d.String()
+		}
+
+		w.history = append(w.history, fmt.Sprintf("concurrently (%s), no record for the stage point yet: %s", label, strings.Join(ds, ", ")))
+
+		start := make(chan struct{})
+
+		var ready, done sync.WaitGroup
+
+		for i := range vs {
+			ready.Add(1)
+			done.Add(1)
+
+			go func(v *c05FirstVote) {
+				defer done.Done()
+
+				ready.Done()
+				<-start
+
+				v.voted, v.err = w.box.Vote(v.bl)
+			}(&vs[i])
+		}
+
+		ready.Wait()
+		close(start)
+		done.Wait()
+
+		for i := range vs {
+			if vs[i].err != nil {
+				rt.Fatalf("Vote error: %v", vs[i].err)
+			}
+		}
+
+		if !c05Quiet() {
+			return false
+		}
+
+		rounds++
+
+		// ---- what was accepted, per key and fact
+		type acc struct {
+			p     base.StagePoint
+			sfs   []base.BallotSignFact
+			facts map[string]int
+			plain bool // every ballot of the key is an ordinary one without expels
+		}
+
+		accepted := map[bbKey]*acc{}
+		full := true
+
+		var results []string
+
+		for i := range vs {
+			v := vs[i]
+			results = append(results, fmt.Sprintf("n%02d %s: %v", v.d.Node, v.d.Kind, v.voted))
+
+			if !v.voted {
+				full = false
+
+				continue
+			}
+
+			sf := v.bl.SignFact()
+
+			w.mu.Lock()
+			if w.accepted[v.key] == nil {
+				w.accepted[v.key] = map[string]base.BallotSignFact{}
+			}
+
+			w.accepted[v.key][sf.Node().String()] = sf
+			w.mu.Unlock()
+
+			a := accepted[v.key]
+			if a == nil {
+				a = &acc{p: v.bl.Point(), facts: map[string]int{}, plain: true}
+				accepted[v.key] = a
+			}
+
+			a.sfs = append(a.sfs, sf)
+			a.facts[sf.Fact().Hash().String()]++
+
+			if strings.Contains(v.d.Kind, "Expel") || strings.HasPrefix(v.d.Kind, "sc") {
+				a.plain = false
+			}
+		}
+
+		if full {
+			fullRounds++
+		}
+
+		res := strings.Join(results, "; ")
+
+		last := w.box.LastPoint()
+		table := map[string]bool{}
+
+		for _, rec := range w.box.VerifRecords() {
+			table[rec.Key] = true
+		}
+
+		for _, k := range []bbKey{{Point: vs[0].key.Point, SC: false}, {Point: vs[0].key.Point, SC: true}} {
+			a := accepted[k]
+			if a == nil {
+				continue
+			}
+
+			// the box has not moved past the stage point (cleanup only takes records below the last point): its record is live
+			if !last.IsZero() && a.p.Compare(last.StagePoint) < 0 {
+				continue
+			}
+
+			if !table[c05Key(a.p, k.SC)] {
+				r.Violation(rt, "accepted-vote-without-record", "Vote() accepted %d ballot(s) of %v sc=%v, the box is at %v, but the record table has no record of that stage point\n  Vote results: %s\n  history:\n    %s",
+					len(a.sfs), a.p, k.SC, last.StagePoint, res, hist())
+			}
+
+			if k.SC {
+				continue
+			}
+
+			got := map[string]bool{}
+			for _, sf := range w.box.Voted(a.p, all) {
+				got[bbSFKey(sf)] = true
+			}
+
+			for _, sf := range a.sfs {
+				if !got[bbSFKey(sf)] {
+					r.Violation(rt, "accepted-vote-lost-in-orphan-record", "Vote() returned true for the ballot of %s for %v, but Voted(%v) of the stage point's record does not have it (it has %d of the %d "+
+						"accepted votes; the box is at %v): the accepted vote is not in the record of its stage point\n  Vote results: %s\n  history:\n    %s",
+						sf.Node(), a.p, a.p, len(got), len(a.sfs), last.StagePoint, res, hist())
+				}
+			}
+
+			if missing, found, err := w.box.MissingNodes(a.p); err == nil && found {
+				for _, m := range missing {
+					for _, sf := range a.sfs {
+						if sf.Node().Equal(m) {
+							r.Violation(rt, "accepted-voter-reported-missing", "Vote() returned true for the ballot of %s for %v, but MissingNodes(%v) reports that node as missing\n  Vote results: %s\n  history:\n    %s",
+								m, a.p, a.p, res, hist())
+						}
+					}
+				}
+			}
+		}
+
+		// ---- the tally sees every accepted vote: count once more (nothing else is running), then a key with enough accepted votes
+		// for one fact has produced its majority voteproof, unless the box has gone past the key by another way
+		w.box.Count()
+
+		if !c05Quiet() {
+			return false
+		}
+
+		judge()
+
+		last = w.box.LastPoint()
+
+		for _, k := range []bbKey{{Point: vs[0].key.Point, SC: false}, {Point: vs[0].key.Point, SC: true}} {
+			a := accepted[k]
+			if a == nil {
+				continue
+			}
+
+			req := w.n - 1 // ballots with expels and suffrage-confirm ballots: every node that is left
+			if a.plain {
+				req = min(w.n, (w.n*bbT10(w.th)+999)/1000)
+			}
+
+			for f, c := range a.facts {
+				if c < req || majorities[fmt.Sprintf("%s|%v|%s", a.p, k.SC, f)] {
+					continue
+				}
+
+				if !last.Before(a.p, k.SC) {
+					continue // moved on by another way (a voteproof taken from a ballot)
+				}
+
+				r.Violation(rt, "accepted-votes-not-tallied", "Vote() accepted %d ballots of %v sc=%v for one fact (%d are enough for a majority; n=%d threshold=%v), everything was counted, "+
+					"but the box handed out no majority voteproof of that stage point and still waits at %v: the tally of the stage point does not see every accepted vote\n  Vote results: %s\n  history:\n    %s",
+					c, a.p, k.SC, req, w.n, w.th, last.StagePoint, res, hist())
+			}
+		}
+
+		return true
+	}
+
+	group := func(h int64, kinds []string, label string) []c05FirstVote {
+		var vs []c05FirstVote
+
+		for _, kind := range kinds {
+			var voters []int
+
+			for i := 0; i < w.n; i++ {
+				if kind == "init" || kind == "accept" || i != w.expelTarget() {
+					voters = append(voters, i)
+				}
+			}
+
+			voters = rapid.Permutation(voters).Draw(rt, label+"Order")
+
+			k := len(voters)
+			if len(kinds) > 1 {
+				k = min(k, 4) // a mixed group: 4 + 4 goroutines
+			} else if rapid.IntRange(0, 3).Draw(rt, label+"Fewer") == 0 {
+				k = rapid.IntRange(min(4, len(voters)), len(voters)).Draw(rt, label+"Voters")
+			}
+
+			dissent := -1
+			if (kind == "init" || kind == "accept") && rapid.IntRange(0, 5).Draw(rt, label+"Dissent") == 0 {
+				dissent = rapid.IntRange(0, k-1).Draw(rt, label+"Dissenter")
+			}
+
+			for i := 0; i < k; i++ {
+				d := bbBallotDesc{Height: h, Kind: kind, Node: voters[i], ExpelBy: "full"}
+				if i == dissent {
+					d.Kind += "X"
+				}
+
+				vs = append(vs, c05FirstVote{d: d})
+			}
+		}
+
+		return vs
+	}
+
+	for i := 0; i < heights; i++ {
+		h := int64(c05FirstBase + i)
+
+		var program [][]string
+
+		switch rapid.IntRange(0, 6).Draw(rt, "program") {
+		case 0:
+			program = [][]string{{"init"}}
+		case 1:
+			program = [][]string{{"init"}, {"accept"}}
+		case 2:
+			program = [][]string{{"initExpel"}, {"sc"}}
+		case 3:
+			program = [][]string{{"initExpel"}, {"sc"}, {"acceptExpel"}}
+		case 4:
+			program = [][]string{{"sc"}} // the suffrage-confirm ballots are the first this node sees of the height
+		case 5:
+			program = [][]string{{"initExpel", "sc"}} // nodes that are ahead already confirm
+		default:
+			program = [][]string{{"accept"}} // the INIT stage was missed
+		}
+
+		for j, kinds := range program {
+			for _, kind := range kinds {
+				if kind == "sc" {
+					scRounds++
+				}
+			}
+
+			if !round(strings.Join(kinds, "+"), group(h, kinds, fmt.Sprintf("s%d", j))) {
+				return w, rounds, fullRounds, scRounds, append(classes, "first-not-quiet:true")
+			}
+		}
+
+		st.check(rt, r, w)
+	}
+
+	// the box goes above everything: two cleanups (remove, release)
+	top := int64(c05FirstBase + heights)
+
+	for _, kind := range []string{"init", "accept"} {
+		for i := 0; i < w.n; i++ {
+			if _, _, err := w.vote(bbBallotDesc{Height: top, Kind: kind, Node: i, ExpelBy: "full"}); err != nil {
+				rt.Fatalf("Vote error: %v", err)
+			}
+		}
+
+		if !c05Quiet() {
+			return w, rounds, fullRounds, scRounds, append(classes, "first-not-quiet:true")
+		}
+
+		judge()
+		st.check(rt, r, w)
+	}
+
+	return w, rounds, fullRounds, scRounds, classes
+}
+
 // c05UnvalidatedDriver: the "unvalidated" driver of phase 3 (the box is advanced while it handles, in its deferred goroutine, a
 // ballot that it did not validate for the suffrage) finds a defect on the tree as of 07e1ede: the deferred function of
 // Ballotbox.vote reads the last point, then calls the threshold function and the suffrage lookup, and hands out the ballot's
@@ -1120,6 +1484,33 @@ func TestC05(t *testing.T) {
 		if nontrivial && r.WantSample() {
 			r.Sample(map[string]any{"phase": "advance", "n": w.n, "threshold": w.th.Float64(), "history": w.history, "counted_voteproofs": counted,
 				"advances_during_completing_count": firedWhileCompleting})
+		}
+	})
+
+	if r.Failed() {
+		return
+	}
+
+	// ---- fourth phase: the first ballots of fresh stage points arrive concurrently
+	r.Checks(40, 1500)
+
+	phase4 := time.Now()
+	defer func() { t.Logf("phase 4 took %v", time.Since(phase4)) }()
+
+	rapid.Check(t, func(rt *rapid.T) {
+		st := &c05State{}
+		heights := rapid.IntRange(8, r.N(14, 22)).Draw(rt, "heights")
+		w, rounds, fullRounds, scRounds, classes := c05FirstBallotsMachine(rt, r, st, heights)
+
+		nontrivial := rounds >= 8 && fullRounds >= 1 && scRounds >= 1
+		r.Case("first;"+fmt.Sprintf("n=%d;th=%v;local=%d;", w.n, w.th, w.localIdx)+strings.Join(w.history, ";"), nontrivial,
+			append(classes, "phase:first-ballots", fmt.Sprintf("first-sc-round:%v", scRounds >= 1), fmt.Sprintf("first-all-accepted-round:%v", fullRounds >= 1))...)
+		r.Class("pool_puts", int64(st.puts))
+		r.Class("concurrent_first_ballot_rounds", int64(rounds))
+		r.Class("concurrent_first_ballot_rounds_all_accepted", int64(fullRounds))
+
+		if nontrivial && r.WantSample() {
+			r.Sample(map[string]any{"phase": "first-ballots", "n": w.n, "threshold": w.th.Float64(), "history": w.history, "rounds": rounds, "rounds_all_accepted": fullRounds})
 		}
 	})
 }
